@@ -1,0 +1,6 @@
+//go:build !verif
+
+package syncutil
+
+// verifGate is a no-op unless the verif build tag is set.
+func verifGate(_ string) {}
